@@ -58,6 +58,11 @@ def older_version(r, entries, base_from, base_to):
             # (a link to a real directory elsewhere: a directory "created" there would put the children outside the destination)
             n.update({"k": r.choice(["f", "l", "l", "l"]), "size": 3, "seed": 4, "segs": None, "target": r.choice(["nowhere", "../zz-target-file", "@ROOT@/by", "@ROOT@/by"])})
             n["flipped"] = True
+        elif n["k"] == "f" and r.random() < 0.3:
+            # the older version had a link here that leads nowhere: copying the file "through" it would create something at a place
+            # no source maps onto (next to the link, or outside the destination altogether)
+            n.update({"k": "l", "target": r.choice(["nowhere-at-all", "../not-there-either", "@ROOT@/by/not-there", "@ROOT@/by/not-there"])})
+            n["flipped"] = True
         elif n["k"] == "f" and r.random() < 0.5:
             n.clear()
             n.update({"p": None})
